@@ -284,12 +284,22 @@ fn width_conv_wd(w: &str, n: &str) -> String {
     }
 }
 
+/// the number of a month or weekday is documented to be its enumeration discriminant as well
+/// ("also available … by casting"): a value whose cast says something else is shown as such
+fn num_and_cast(number: u32, cast: u32) -> String {
+    if number == cast {
+        number.to_string()
+    } else {
+        format!("{number}!cast={cast}")
+    }
+}
+
 fn names_line() -> String {
     let ms: Vec<String> = MonthIter::new()
         .map(|m| {
             format!(
                 "{}:{}:{:#}:{}:{}:{}",
-                m.number(),
+                num_and_cast(m.number(), m as u32),
                 m,
                 m,
                 m.number0(),
@@ -312,7 +322,7 @@ fn names_line() -> String {
         .map(|w| {
             format!(
                 "{}:{}:{:#}:{}:{}:{}",
-                w.number(),
+                num_and_cast(w.number(), *w as u32),
                 w,
                 w,
                 w.number0(),
@@ -851,6 +861,14 @@ fn answer_lib(line: &str) -> String {
             match c.parse_date(&s) {
                 Ok(d) => show_date(&d),
                 Err(e) => show_parse_err(&e),
+            }
+        }
+        ["prim_parse", ty, h] => {
+            let s = p!(hex_dec(h));
+            match *ty {
+                "i32" => show_opt(s.parse::<i32>().ok()),
+                "u32" => show_opt(s.parse::<u32>().ok()),
+                _ => "BADREQ".into(),
             }
         }
         ["month_str", h] => {
